@@ -20,7 +20,7 @@ theorem cur_model_fits : ModelFits Skeleton.current :=
 
 theorem cur_hyg : Bc.Hyg Skeleton.current := ⟨by decide, by decide⟩
 theorem cur_nochanclose : Bc.NoChanClose Skeleton.current := ⟨by decide, by decide⟩
-theorem cur_wakes : Bc.Wakes Skeleton.current := ⟨by decide, by decide, by decide, by decide, by decide, by decide⟩
+theorem cur_wakes : Bc.Wakes Skeleton.current := ⟨by decide, by decide, by decide, by decide, by decide, by decide, by decide⟩
 theorem cur_select_outside_lock : Skeleton.current.bcPublishSelectOutsideLock = true := by decide
 theorem cur_recovers : Skeleton.current.stubRecovers = true := by decide
 theorem cur_firstonly : FirstOnly Skeleton.current := ⟨by decide, by decide, by decide⟩
@@ -32,5 +32,12 @@ theorem cur_live : Live Skeleton.current :=
     selDone := by decide, selCtx := by decide, recovers := by decide, setsErr := by decide,
     cap := by decide, selRes := by decide, selLink := by decide, wfrees := by decide,
     skipDec := by decide, pubChecksClosed := by decide }
+
+theorem cur_only_closed : Skeleton.current.bcReceiveErrorsOnlyClosed = true := cur_wakes.onlyClosed
+
+/-- the current tree with ONE fact flipped: `Receive` also refuses a caller context that is done already
+    (`if err := ctx.Err(); err != nil { return nil, err }` after the closed check).  Used by the witness
+    theorems of C04 / C16 that show what the fact `bcReceiveErrorsOnlyClosed` protects against. -/
+def skRefusesDoneCtx : Skeleton := { Skeleton.current with bcReceiveErrorsOnlyClosed := false }
 
 end Panrpc.Ep
